@@ -14,9 +14,13 @@
 //   * authentication: stand-in (identity handles, a fabricated shared secret).
 //   * cryptography: the real CryptographicBuiltin, reached only through SecurityPlugins' own
 //     register_* / create_*_tokens / set_*_tokens / encode_* calls.
-// Parties: L (owns the MessageReceiver), the genuine remote peer P (matched with L, tokens
-// exchanged both ways) and two imposters that never gave L any tokens: X1 claims P's GUID prefix
-// but has its own keys, X2 is an unregistered participant. "protect_*" lets the harness ask one
+// Parties: L (owns the MessageReceiver), two genuine remote peers P and P2 (each matched with L,
+// tokens exchanged both ways) and two imposters that never gave L any tokens: X1 claims P's GUID
+// prefix but has its own keys, X2 is an unregistered participant. Entity ids are only unique within
+// a participant: P2's writer on the unprotected topic has the entity id of P's writer on the
+// protected topic and vice versa (likewise their readers), so that MessageReceiver's fan-out for
+// reader id ENTITYID_UNKNOWN (which looks at the writer's entity id only) always has a protected
+// and an unprotected candidate; which of L's two user readers sorts first is chosen per case. "protect_*" lets the harness ask one
 // of them to protect a plaintext payload / submessage / message for L.
 // Everything in the API is plain data; no oracle lives here.
 use std::{
@@ -93,12 +97,18 @@ pub struct MrCfg {
   pub domain_id: u16,
   /// seed of the fabricated shared secrets
   pub fab_seed: u64,
+  /// entity id order of L's two user readers (MessageReceiver keeps its readers in a BTreeMap by
+  /// entity id): the reader of the protected topic sorts before the reader of the unprotected one
+  pub prot_reader_first: bool,
 }
 
 #[derive(Clone, Copy, Debug, PartialEq, Eq)]
 pub enum Who {
   /// the genuine remote peer (matched with L, tokens exchanged)
   Peer,
+  /// a second genuine remote peer, whose user endpoints have the entity ids of the first peer's
+  /// endpoints on the other topic
+  Peer2,
   /// claims the peer's GUID prefix, own key material, L never received its tokens
   ImposterSamePrefix,
   /// a participant L has never registered
@@ -108,13 +118,15 @@ pub enum Who {
 #[derive(Clone, Debug)]
 pub struct Ids {
   pub local_prefix: [u8; 12],
-  pub peer_prefix: [u8; 12],
+  /// prefixes of the genuine peers P, P2
+  pub peer_prefix: [[u8; 12]; 2],
   pub other_prefix: [u8; 12],
-  /// L's readers / writers, the remote party's writers / readers (same for P, X1, X2), by slot
+  /// L's readers / writers by slot
   pub local_readers: [[u8; 4]; EP_COUNT],
   pub local_writers: [[u8; 4]; EP_COUNT],
-  pub remote_writers: [[u8; 4]; EP_COUNT],
-  pub remote_readers: [[u8; 4]; EP_COUNT],
+  /// writers / readers of P (also used by X1, X2) and of P2, by slot
+  pub remote_writers: [[[u8; 4]; EP_COUNT]; 2],
+  pub remote_readers: [[[u8; 4]; EP_COUNT]; 2],
 }
 
 /// What L's SecurityPlugins answer after configuration (observation, for the evidence samples).
@@ -187,7 +199,10 @@ fn fab32(seed: u64, tag: u64) -> [u8; 32] {
 /// Authentication stand-in: identity handles and the shared secret a handshake would have left.
 struct FabAuth {
   secret_seed: u64,
+  own: [u8; 12],
   next: u32,
+  /// identity handle -> prefix of that remote participant
+  remotes: Vec<(IdentityHandle, [u8; 12])>,
 }
 impl Authentication for FabAuth {
   fn validate_local_identity(&mut self, _domain_id: u16, _qos: &QosPolicies, guid: GUID) -> SecurityResult<(ValidationOutcome, IdentityHandle, GUID)> {
@@ -198,9 +213,10 @@ impl Authentication for FabAuth {
     _t: Option<AuthRequestMessageToken>,
     _l: IdentityHandle,
     _r: IdentityToken,
-    _g: GuidPrefix,
+    g: GuidPrefix,
   ) -> SecurityResult<(ValidationOutcome, IdentityHandle, Option<AuthRequestMessageToken>)> {
     self.next += 1;
+    self.remotes.push((self.next, arr12(g)));
     Ok((ValidationOutcome::Ok, self.next, None))
   }
   fn begin_handshake_request(&mut self, _i: IdentityHandle, _r: IdentityHandle, _d: Vec<u8>) -> SecurityResult<(ValidationOutcome, HandshakeHandle, HandshakeMessageToken)> {
@@ -212,11 +228,19 @@ impl Authentication for FabAuth {
   fn process_handshake(&mut self, _m: HandshakeMessageToken, _h: HandshakeHandle) -> SecurityResult<(ValidationOutcome, Option<HandshakeMessageToken>)> {
     unsupported()
   }
-  fn get_shared_secret(&self, _h: IdentityHandle) -> SecurityResult<SharedSecretHandle> {
+  fn get_shared_secret(&self, h: IdentityHandle) -> SecurityResult<SharedSecretHandle> {
+    // one secret per pair of participants (both ends compute the same), as a handshake leaves it
+    let remote = self.remotes.iter().find(|(x, _)| *x == h).map(|(_, p)| *p).ok_or_else(|| security_error("verif sec_mr: unknown identity handle"))?;
+    let (a, b) = if self.own <= remote { (self.own, remote) } else { (remote, self.own) };
+    let mut pair = 0xcbf29ce484222325u64;
+    for x in a.iter().chain(b.iter()) {
+      pair = (pair ^ *x as u64).wrapping_mul(0x100000001b3);
+    }
+    let seed = self.secret_seed ^ pair;
     Ok(SharedSecretHandle {
-      shared_secret: SharedSecret::from(fab32(self.secret_seed, 1)),
-      challenge1: Challenge::from(fab32(self.secret_seed, 2)),
-      challenge2: Challenge::from(fab32(self.secret_seed, 3)),
+      shared_secret: SharedSecret::from(fab32(seed, 1)),
+      challenge1: Challenge::from(fab32(seed, 2)),
+      challenge2: Challenge::from(fab32(seed, 3)),
     })
   }
   fn get_authenticated_peer_credential_token(&self, _h: HandshakeHandle) -> SecurityResult<AuthenticatedPeerCredentialToken> {
@@ -319,41 +343,38 @@ fn es<T, E: std::fmt::Debug>(r: Result<T, E>, what: &str) -> Result<T, String> {
 fn user_eid(n: u8, writer: bool) -> EntityId {
   EntityId::new([0, 0, n], if writer { EntityKind::WRITER_WITH_KEY_USER_DEFINED } else { EntityKind::READER_WITH_KEY_USER_DEFINED })
 }
-fn local_reader_eids() -> [EntityId; EP_COUNT] {
-  [
-    user_eid(0x11, false),
-    user_eid(0x12, false),
-    EntityId::SPDP_BUILTIN_PARTICIPANT_READER,
-    EntityId::P2P_BUILTIN_PARTICIPANT_STATELESS_READER,
-    EntityId::P2P_BUILTIN_PARTICIPANT_VOLATILE_SECURE_READER,
-  ]
+fn builtin_tail(a: EntityId, b: EntityId, writers: bool) -> [EntityId; EP_COUNT] {
+  if writers {
+    [a, b, EntityId::SPDP_BUILTIN_PARTICIPANT_WRITER, EntityId::P2P_BUILTIN_PARTICIPANT_STATELESS_WRITER, EntityId::P2P_BUILTIN_PARTICIPANT_VOLATILE_SECURE_WRITER]
+  } else {
+    [a, b, EntityId::SPDP_BUILTIN_PARTICIPANT_READER, EntityId::P2P_BUILTIN_PARTICIPANT_STATELESS_READER, EntityId::P2P_BUILTIN_PARTICIPANT_VOLATILE_SECURE_READER]
+  }
+}
+/// L's readers: which of the two user readers has the smaller entity id is the case's choice
+fn local_reader_eids(prot_first: bool) -> [EntityId; EP_COUNT] {
+  if prot_first {
+    builtin_tail(user_eid(0x11, false), user_eid(0x12, false), false)
+  } else {
+    builtin_tail(user_eid(0x12, false), user_eid(0x11, false), false)
+  }
 }
 fn local_writer_eids() -> [EntityId; EP_COUNT] {
-  [
-    user_eid(0x21, true),
-    user_eid(0x22, true),
-    EntityId::SPDP_BUILTIN_PARTICIPANT_WRITER,
-    EntityId::P2P_BUILTIN_PARTICIPANT_STATELESS_WRITER,
-    EntityId::P2P_BUILTIN_PARTICIPANT_VOLATILE_SECURE_WRITER,
-  ]
+  builtin_tail(user_eid(0x21, true), user_eid(0x22, true), true)
 }
-fn remote_writer_eids() -> [EntityId; EP_COUNT] {
-  [
-    user_eid(0x31, true),
-    user_eid(0x32, true),
-    EntityId::SPDP_BUILTIN_PARTICIPANT_WRITER,
-    EntityId::P2P_BUILTIN_PARTICIPANT_STATELESS_WRITER,
-    EntityId::P2P_BUILTIN_PARTICIPANT_VOLATILE_SECURE_WRITER,
-  ]
+/// peer 0 = P (and the imposters), peer 1 = P2 with the user entity ids swapped between the topics
+fn remote_writer_eids(peer: usize) -> [EntityId; EP_COUNT] {
+  if peer == 0 {
+    builtin_tail(user_eid(0x31, true), user_eid(0x32, true), true)
+  } else {
+    builtin_tail(user_eid(0x32, true), user_eid(0x31, true), true)
+  }
 }
-fn remote_reader_eids() -> [EntityId; EP_COUNT] {
-  [
-    user_eid(0x41, false),
-    user_eid(0x42, false),
-    EntityId::SPDP_BUILTIN_PARTICIPANT_READER,
-    EntityId::P2P_BUILTIN_PARTICIPANT_STATELESS_READER,
-    EntityId::P2P_BUILTIN_PARTICIPANT_VOLATILE_SECURE_READER,
-  ]
+fn remote_reader_eids(peer: usize) -> [EntityId; EP_COUNT] {
+  if peer == 0 {
+    builtin_tail(user_eid(0x41, false), user_eid(0x42, false), false)
+  } else {
+    builtin_tail(user_eid(0x42, false), user_eid(0x41, false), false)
+  }
 }
 
 /// slots for which the library registers matched remote endpoints with the crypto plugin
@@ -368,7 +389,7 @@ fn build_party(cfg: &MrCfg, prefix: GuidPrefix, secret_seed: u64, readers: &[Ent
   let docs = crate::verif::sec::access::parse_docs(&cfg.governance_xml, &cfg.permissions_xml)?;
   let (ac, handle) = docs.decider(&cfg.subject_name, cfg.domain_id)?.into_parts();
   let mut sp = SecurityPlugins::new(
-    Box::new(FabAuth { secret_seed, next: 1 }),
+    Box::new(FabAuth { secret_seed, own: arr12(prefix), next: 1, remotes: vec![] }),
     Box::new(PrebuiltAccess { inner: ac, local: handle, next_remote: 1000 }),
     Box::new(CryptographicBuiltin::new()),
   );
@@ -447,6 +468,8 @@ fn give_tokens(
 struct Remote {
   prefix: GuidPrefix,
   sp: SecurityPlugins,
+  writers: [EntityId; EP_COUNT],
+  readers: [EntityId; EP_COUNT],
 }
 
 struct Rd {
@@ -459,6 +482,8 @@ pub struct MrBench {
   mr: MessageReceiver,
   handle: SecurityPluginsHandle,
   local_prefix: GuidPrefix,
+  lr: [EntityId; EP_COUNT],
+  lw: [EntityId; EP_COUNT],
   remotes: Vec<Remote>, // indexed by Who
   readers: Vec<Rd>,
   acknack_rx: mio_channel::Receiver<(GuidPrefix, AckSubmessage)>,
@@ -489,6 +514,7 @@ fn who_index(w: Who) -> usize {
     Who::Peer => 0,
     Who::ImposterSamePrefix => 1,
     Who::ImposterOtherPrefix => 2,
+    Who::Peer2 => 3,
   }
 }
 
@@ -503,21 +529,37 @@ impl MrBench {
     op[4..12].copy_from_slice(&mix(cfg.fab_seed ^ 0x22).to_le_bytes());
     let other_prefix = GuidPrefix::new(&op);
 
-    let (lr, lw, rw, rr) = (local_reader_eids(), local_writer_eids(), remote_writer_eids(), remote_reader_eids());
+    let mut p2p = [0x54u8; 12];
+    p2p[4..12].copy_from_slice(&mix(cfg.fab_seed ^ 0x33).to_le_bytes());
+    let peer2_prefix = GuidPrefix::new(&p2p);
 
-    // ---- plugins of L, of the genuine peer, of the imposters
+    let (lr, lw) = (local_reader_eids(cfg.prot_reader_first), local_writer_eids());
+    let (rw, rr) = (remote_writer_eids(0), remote_reader_eids(0));
+    let (rw2, rr2) = (remote_writer_eids(1), remote_reader_eids(1));
+
+    // ---- plugins of L, of the genuine peers, of the imposters
     let mut l = build_party(cfg, local_prefix, cfg.fab_seed, &lr, &lw)?;
     let mut p = build_party(cfg, peer_prefix, cfg.fab_seed, &rr, &rw)?;
     register_remote(&mut l, local_prefix, &lr, &lw, peer_prefix, &rr, &rw)?;
     register_remote(&mut p, peer_prefix, &rr, &rw, local_prefix, &lr, &lw)?;
     give_tokens(&mut p, peer_prefix, &rr, &rw, &mut l, local_prefix, &lr, &lw)?;
     give_tokens(&mut l, local_prefix, &lr, &lw, &mut p, peer_prefix, &rr, &rw)?;
+    let mut p2 = build_party(cfg, peer2_prefix, cfg.fab_seed, &rr2, &rw2)?;
+    register_remote(&mut l, local_prefix, &lr, &lw, peer2_prefix, &rr2, &rw2)?;
+    register_remote(&mut p2, peer2_prefix, &rr2, &rw2, local_prefix, &lr, &lw)?;
+    give_tokens(&mut p2, peer2_prefix, &rr2, &rw2, &mut l, local_prefix, &lr, &lw)?;
+    give_tokens(&mut l, local_prefix, &lr, &lw, &mut p2, peer2_prefix, &rr2, &rw2)?;
     // the imposters know L (so that they can address it), L knows nothing of them
     let mut x1 = build_party(cfg, peer_prefix, cfg.fab_seed ^ 0xBAD1, &rr, &rw)?;
     register_remote(&mut x1, peer_prefix, &rr, &rw, local_prefix, &lr, &lw)?;
     let mut x2 = build_party(cfg, other_prefix, cfg.fab_seed ^ 0xBAD2, &rr, &rw)?;
     register_remote(&mut x2, other_prefix, &rr, &rw, local_prefix, &lr, &lw)?;
-    let remotes = vec![Remote { prefix: peer_prefix, sp: p }, Remote { prefix: peer_prefix, sp: x1 }, Remote { prefix: other_prefix, sp: x2 }];
+    let remotes = vec![
+      Remote { prefix: peer_prefix, sp: p, writers: rw, readers: rr },
+      Remote { prefix: peer_prefix, sp: x1, writers: rw, readers: rr },
+      Remote { prefix: other_prefix, sp: x2, writers: rw, readers: rr },
+      Remote { prefix: peer2_prefix, sp: p2, writers: rw2, readers: rr2 },
+    ];
 
     let handle = SecurityPluginsHandle::new(l);
 
@@ -562,8 +604,10 @@ impl MrBench {
       // the stateless reader has no proxies at all)
       if MATCHED_SLOTS.contains(&s) {
         let addr: SocketAddr = "127.0.0.1:7".parse().unwrap();
-        let proxy = RtpsWriterProxy::new(GUID::new(peer_prefix, rw[s]), vec![Locator::from(addr)], vec![], EntityId::UNKNOWN);
-        reader.update_writer_proxy(proxy, &qos);
+        for (pfx, eid) in [(peer_prefix, rw[s]), (peer2_prefix, rw2[s])] {
+          let proxy = RtpsWriterProxy::new(GUID::new(pfx, eid), vec![Locator::from(addr)], vec![], EntityId::UNKNOWN);
+          reader.update_writer_proxy(proxy, &qos);
+        }
       }
       let sdr = es(
         with_key::SimpleDataReader::<VSample, CDRDeserializerAdapter<VSample>>::new(
@@ -586,7 +630,7 @@ impl MrBench {
       pstatus.push(pstatus_rx);
     }
 
-    Ok(MrBench { mr, handle, local_prefix, remotes, readers, acknack_rx, spdp_rx, acks: vec![], spdp_seen: 0, _pstatus_rx: pstatus })
+    Ok(MrBench { mr, handle, local_prefix, lr, lw, remotes, readers, acknack_rx, spdp_rx, acks: vec![], spdp_seen: 0, _pstatus_rx: pstatus })
   }
 
   pub fn ids(&self) -> Ids {
@@ -599,18 +643,18 @@ impl MrBench {
     };
     Ids {
       local_prefix: arr12(self.local_prefix),
-      peer_prefix: arr12(self.remotes[0].prefix),
+      peer_prefix: [arr12(self.remotes[0].prefix), arr12(self.remotes[3].prefix)],
       other_prefix: arr12(self.remotes[2].prefix),
-      local_readers: f(local_reader_eids()),
-      local_writers: f(local_writer_eids()),
-      remote_writers: f(remote_writer_eids()),
-      remote_readers: f(remote_reader_eids()),
+      local_readers: f(self.lr),
+      local_writers: f(self.lw),
+      remote_writers: [f(self.remotes[0].writers), f(self.remotes[3].writers)],
+      remote_readers: [f(self.remotes[0].readers), f(self.remotes[3].readers)],
     }
   }
 
   pub fn answers(&self) -> Answers {
     let pl = self.handle.get_plugins();
-    let (lr, lw) = (local_reader_eids(), local_writer_eids());
+    let (lr, lw) = (self.lr, self.lw);
     let mut a = Answers {
       rtps_not_protected: pl.rtps_not_protected(&self.local_prefix),
       reader_submessage_not_protected: [false; EP_COUNT],
@@ -697,7 +741,7 @@ impl MrBench {
   /// `who`'s writer of slot `slot` encodes a serialized payload (or one DATAFRAG's bytes).
   pub fn protect_payload(&self, who: Who, slot: usize, plain: &[u8]) -> Result<Option<Vec<u8>>, String> {
     let r = &self.remotes[who_index(who)];
-    let wg = GUID::new(r.prefix, remote_writer_eids()[slot]);
+    let wg = GUID::new(r.prefix, r.writers[slot]);
     if r.sp.payload_not_protected(&wg) {
       return Ok(None);
     }
@@ -721,13 +765,13 @@ impl MrBench {
     }
     let enc = match &sm.body {
       crate::rtps::SubmessageBody::Writer(_) => {
-        let src = GUID::new(r.prefix, remote_writer_eids()[key_slot]);
-        let dst = GUID::new(self.local_prefix, local_reader_eids()[key_slot]);
+        let src = GUID::new(r.prefix, r.writers[key_slot]);
+        let dst = GUID::new(self.local_prefix, self.lr[key_slot]);
         es(r.sp.encode_datawriter_submessage(sm, &src, &[dst]), "encode_datawriter_submessage")?
       }
       crate::rtps::SubmessageBody::Reader(_) => {
-        let src = GUID::new(r.prefix, remote_reader_eids()[key_slot]);
-        let dst = GUID::new(self.local_prefix, local_writer_eids()[key_slot]);
+        let src = GUID::new(r.prefix, r.readers[key_slot]);
+        let dst = GUID::new(self.local_prefix, self.lw[key_slot]);
         es(r.sp.encode_datareader_submessage(sm, &src, &[dst]), "encode_datareader_submessage")?
       }
       _ => return Err("generator: only entity submessages are protected at submessage level".into()),
